@@ -21,6 +21,9 @@ CHECKS = {
  "C15": dict(cat="model_checking", tech="TLA+ Loader.tla/LoaderOrder.tla: TLC checks the ordering loop of load.go against the spec on every digraph (N<=4); TLC validates marker traces of real loads of materialised import graphs",
    text="LoaderOrder.tla transcribes load.go's ordering loop and TLC checks, for every digraph on 3 (quick) / 4 (thorough, 65536 graphs) packages, that it yields a topological order or reports a cycle exactly when one is reachable. Loader.tla states the property on execution units (per-file variable initialisers and init functions); all 512 digraphs on 3 packages and seeded random trees up to 12 packages with file splits, vendor/shortened placement, _test.go files, 10 build-constraint header shapes, planted cycles and conflicting clauses are loaded by the real loader and the printed marker order validated by TLC (any topological order accepted; nothing of an ignored file may run; error iff cycle or conflict reachable).",
    note="tie-breaking between independent packages is not part of the property and is not constrained; stdout order is execution order (single-threaded VM)", ref="6/C15"),
+ "C19": dict(cat="model_checking", tech="TLA+ Embed.tla: TLC exhaustive model check of the native call protocol, every completed case replayed on the real package in every expressible context; constructor/accessor tables validated by TLC (FixedWidth.Conv, Trace_Values)",
+   text="Embed.tla models the call protocol on an abstract operand stack (arguments pushed in order, native sees exactly them, results appended, first req kept, error when more requested than produced or when the native raises, operands below untouched); TLC explores all 7800 cases and checks the protocol invariants; each case is replayed through 7 script contexts and host-side Func/Call with natives that record what they saw. Scalar round trips (boundaries + random) are table lines validated by TLC.",
+   note="natives of the raw func(vm) forms cannot touch the stack from outside the package, so they are exercised with arity 0 only; wrong-arity calls of natives are covered with script functions in C09", ref="6/C19"),
 }
 NOT_YET = {}
 def main():
